@@ -332,32 +332,36 @@ pub fn main(tier: Tier, seed: u64) -> i32 {
     // The corrupted party flips bit r of its aShare decommitment consistently (tap: committed and
     // sent alike) and rewrites the opened key sum it receives to the value its own code expects, so
     // that the corrupted code path keeps going.
-    let mut scripted = vec![];
-    for (ci, cfg) in cfgs.iter().enumerate() {
-        for occ in [0usize, 17, 39] {
-            scripted.push((ci, occ));
+    // single lies and pairs of lies within one aShare call (two lies cancel in an accumulated check)
+    let mut scripted: Vec<(usize, Vec<usize>)> = vec![];
+    for (ci, _cfg) in cfgs.iter().enumerate() {
+        for occs in [vec![0usize], vec![17], vec![39], vec![3, 17], vec![0, 39], vec![5, 6, 7, 8]] {
+            scripted.push((ci, occs));
         }
     }
-    let sres = par_map(&scripted, |w, _, (ci, occ)| {
+    let sres = par_map(&scripted, |w, _, (ci, occs)| {
         let cfg = &cfgs[*ci];
         let n = cfg.case.n();
-        let tap = TapSpec {
-            party: cfg.corrupted,
-            name: "fashare_dm".into(),
-            occ: Some(*occ),
-            f: Arc::new(|h: &mut Hook<'_>| {
-                if let Hook::Bytes(b) = h {
-                    b[0] ^= 1;
-                }
-            }),
-        };
+        let taps: Vec<TapSpec> = occs
+            .iter()
+            .map(|occ| TapSpec {
+                party: cfg.corrupted,
+                name: "fashare_dm".into(),
+                occ: Some(*occ),
+                f: Arc::new(|h: &mut Hook<'_>| {
+                    if let Hook::Bytes(b) = h {
+                        b[0] ^= 1;
+                    }
+                }),
+            })
+            .collect();
         // fix-up: every 'fashare di_bi' the corrupted party receives is replaced by the honest-run
         // value (same tape), which is what its unmodified checks expect
         let mut faults = vec![];
         for m in cfg.honest.msgs.iter().filter(|m| m.to == cfg.corrupted && m.label == "fashare di_bi" && m.ord == 0) {
             faults.push(Fault { party: cfg.corrupted, dir: Dir::Recv, peer: m.from, label: m.label.clone(), ord: m.ord, mutation: Mutation::Replace(m.bytes.clone()) });
         }
-        let r = probed_run(&cfg.case, cfg.seed, faults, vec![tap], w);
+        let r = probed_run(&cfg.case, cfg.seed, faults, taps, w);
         let mut leaks = vec![];
         let mut st = LeakStats::default();
         for v in (0..n).filter(|v| *v != cfg.corrupted) {
@@ -371,13 +375,14 @@ pub fn main(tier: Tier, seed: u64) -> i32 {
         (leaks, outs)
     });
     for ((ci, occ), (leaks, outs)) in scripted.iter().zip(sres.iter()) {
+        let occ = format!("{occ:?}");
         rep.evaluations += 1;
         let cfg = &cfgs[*ci];
         for (class, d) in leaks {
-            rep.violation(format!("scripted_check_bit_lie:{class}"), format!("{}: check bit #{occ} misreported, reply fixed up; outcomes {outs:?} -> {d}", cfg.name), json!({"kind":"tap","case":cfg.case,"corrupted":cfg.corrupted,"seed":cfg.seed,"tap":"fashare_dm","occ":occ}));
+            rep.violation(format!("scripted_check_bit_lie:{class}"), format!("{}: check bit(s) #{occ} misreported, reply fixed up; outcomes {outs:?} -> {d}", cfg.name), json!({"kind":"tap","case":cfg.case,"corrupted":cfg.corrupted,"seed":cfg.seed,"tap":"fashare_dm","occ":occ}));
         }
         if rep.samples.len() < 3 {
-            rep.sample(json!({"scripted_attack": format!("{}: corrupted party misreports check bit #{occ} of its aShare decommitment (consistently) and fixes up the reply", cfg.name), "outcomes": outs}));
+            rep.sample(json!({"scripted_attack": format!("{}: corrupted party misreports check bit(s) #{occ} of its aShare decommitment (consistently) and fixes up the reply", cfg.name), "outcomes": outs}));
         }
     }
     rep.sample(json!({"honest_run": honest_cases[0].1.show(), "monitor": "key at no byte offset (LE/BE); no two 128-bit windows and no three decoded fields XOR to the key"}));
